@@ -198,8 +198,9 @@ func c06Protocol(req c06Req, resp *drv.Response, rng *rand.Rand) error {
 type rcCircuit struct {
 	X      []frontend.Variable
 	Pad    []frontend.Variable
-	Widths []int  `gnark:"-"`
-	Kind   string `gnark:"-"` // "nbits" | "rangecheck"
+	Widths []int      `gnark:"-"`
+	Kind   string     `gnark:"-"` // "nbits" | "rangecheck"
+	Consts []*big.Int `gnark:"-"` // operands that are compile-time constants of the circuit (checked with Widths, after X)
 }
 
 func (c *rcCircuit) Define(api frontend.API) error {
@@ -213,6 +214,9 @@ func (c *rcCircuit) Define(api frontend.API) error {
 		} else {
 			chip.RangeCheckWithMaxBits(gl.NewVariable(x), uint64(c.Widths[i]))
 		}
+	}
+	for i, k := range c.Consts {
+		chip.RangeCheckWithMaxBits(gl.NewVariable(k), uint64(c.Widths[i]))
 	}
 	return nil
 }
@@ -300,6 +304,39 @@ func c06ProtocolReal(c RCCase, resp *drv.Response, rng *rand.Rand) {
 		if e := solveReal(ccs, mk(bad, pad)); e == nil {
 			resp.Violate(fmt.Sprintf("c06/protocol-real/noop sys=%s width=%d", sys, c.Widths[k]),
 				fmt.Sprintf("%s: value 2^%d satisfies the compiled %s system although a %d-bit range check was requested", c.key(), c.Widths[k], sys, c.Widths[k]), c)
+		}
+	}
+	// the operand may be a compile-time constant of the circuit: the same ranges are enforced (a builder knows the value of a constant,
+	// the test engine and the proxy do not, so this only exists on compiled systems)
+	if len(c.Widths) > 0 {
+		mkc := func(consts []*big.Int) *rcCircuit {
+			cc := mk(inRange, pad)
+			cc.Consts = consts
+			return cc
+		}
+		resp.Count("real-const-honest:"+c.key(), false)
+		if ccs2, err := compileReal(sys, mkc(inRange)); err != nil {
+			resp.Violate(fmt.Sprintf("c06/protocol-real/constant-refused sys=%s", sys), fmt.Sprintf("%s: in-range constants 2^w-1 as operands: compilation fails (%v)", c.key(), errHead(err)), c)
+		} else if e := solveReal(ccs2, mkc(inRange)); e != nil {
+			resp.Violate(fmt.Sprintf("c06/protocol-real/constant-rejected sys=%s", sys), fmt.Sprintf("%s: in-range constants 2^w-1 as operands are rejected: %v", c.key(), errHead(e)), c)
+		}
+		k := rng.Intn(len(c.Widths))
+		w := c.Widths[k]
+		for _, bad := range []*big.Int{pow2(w), new(big.Int).Add(pow2(64), big.NewInt(5)), new(big.Int).Add(pow2(128), one), new(big.Int).Sub(bigR, one)} {
+			if bad.Cmp(pow2(w)) < 0 {
+				continue
+			}
+			consts := append([]*big.Int{}, inRange...)
+			consts[k] = bad
+			resp.Count(fmt.Sprintf("real-const-bad%d:%s:%s", k, bad.String(), c.key()), false)
+			ccs2, err := compileReal(sys, mkc(consts))
+			if err != nil {
+				continue // refused at compile time
+			}
+			if e := solveReal(ccs2, mkc(consts)); e == nil {
+				resp.Violate(fmt.Sprintf("c06/protocol-real/constant-noop sys=%s width=%d", sys, w),
+					fmt.Sprintf("%s: the constant %s as operand of a %d-bit range check: the compiled %s system is satisfiable", c.key(), bad.String(), w, sys), c)
+			}
 		}
 	}
 	resp.Sample(map[string]any{"case": c.key(), "sys": sys, "model": c.Outcome, "constraints": ccs.GetNbConstraints()})
